@@ -739,6 +739,7 @@ class StmtMixin(object):
         res.notes = list(self.notes)
         res.pins = dict(self.pins)
         res.locals = dict(self.top_locals)
+        res.recips = dict(self.recips)
         res.node = m
         return res
 
